@@ -250,4 +250,6 @@ def make_leaf(step):
         return claripy.BoolS(a[0], explicit_name=True)
     if op == "BVV":
         return claripy.BVV(a[0], w)
+    if op == "BoolV":
+        return claripy.BoolV(bool(a[0]))
     raise ValueError(op)
